@@ -84,6 +84,18 @@ CLAIMED["C15"] = dict(
   technique="Coq proof (corollaries of the closed form of a run; unfolding for the dry runs) + checked correspondence with the real binary (sync -r in three directions, bisync)",
   ref="5.7")
 
+CLAIMED["C09"] = dict(
+  text="Coq theorems for any deliveries with pairwise different paths, any initial destination and EVERY schedule of their atomic steps (open staging, write chunk*, rename, set mtime) cut at any point: every path holds its pre-run entry or the COMPLETE bytes of its delivery, paths of no delivery are unchanged, a staging file is always a prefix; the same after the remote command of a killed push has run to completion (it renames only a complete staging file); re-running from any such crashed destination gives the uninterrupted result at every path (with the path-spelling side condition the proof found for --delete). Tie: real `copia sync -r` in all three directions killed before EVERY k-th file-system or pipe write call (shim), destination bytes and staging files compared with the extracted step model on the observed step prefix, then re-run and compared with the uninterrupted result.",
+  note="Trusted as C17, plus: atomic libc calls and rename, GNU cat/wc/mv/touch + bash behaviour of the remote command (modelled by remote_push/remote_finish), ssh stand-in; durability across power loss not modelled.",
+  technique="Coq proof (invariant over arbitrary schedules and crash prefixes) + checked correspondence with executed kill points",
+  ref="5.11")
+
+CLAIMED["C08"] = dict(
+  text="Coq theorems over every bisync state and EVERY crash point k: executing the generated file-system step list reproduces the run (conflict names differ from their paths); the step list is a sequence of copy blocks (stage, data, fsync, rename) and unlinks followed by the archive steps - every delivered file is fsynced before its rename and all data steps precede the archive rename; at every crash point the archive is the old one, absent, or the new one, the new one only after all data steps; every live path holds a complete pre-existing version (exactly the initial or the final content when conflict names are fresh); re-running after a crash reaches exactly the uninterrupted state for runs without a both-changed conflict (recovery_converges_partial; the conflict case is swept by vm_compute on an example and executed by the tie). Tie: real `copia bisync` on the property's scenarios - ordered mutating libc calls of an uninterrupted run compared with the model's step list; for EVERY k the run is killed before its k-th mutating call, trees/staging/archive compared with the model's crash state, then bisync re-run (up to three times) and compared with the uninterrupted result.",
+  note="Trusted as C17, plus: atomic libc calls and rename; durability is represented by the fsync-before-rename ordering obligation only; recovery with a both-changed conflict and leftover-staging reruns are executed for every kill point by the tie, not proved (partial).",
+  technique="Coq proof (structure of the step list, invariants over all crash prefixes) + checked correspondence with executed kill points",
+  ref="5.15")
+
 NA_REASON = "check not built yet in this session; see DESIGN.md section 5 for the planned model and theorems"
 
 
